@@ -1,4 +1,5 @@
 import FimVerif.Drivers.StoreCodec
+import FimVerif.Model.AGraph
 open Lean FimVerif.Proto FimVerif.Store FimVerif.StoreCodec
 
 /-- requests: `["S", op…]` shared-store model, `["D", op…]` one-graph-per-id model, `["A", op…]` the reference
@@ -10,10 +11,6 @@ structure St where
   a : List (String × AGraph)
 
 def getA (st : St) (g : String) : AGraph := (FimVerif.AMap.get g st.a).getD AGraph.empty
-
-def otherOf : Op → String
-  | .findMatchingNodes _ o => o
-  | _ => ""
 
 def outWithGraphId (g : String) : Except Err Out → Except Err Out
   | .ok (.nodeProps l p) => .ok (.nodeProps l (p ++ [("GraphID", .str g)]))
@@ -40,7 +37,7 @@ def stepReq (st : St) (j : Json) : St × Json :=
       else if w == "A" then
         if !AGraph.covers op then (st, err "not-covered")
         else
-          let r := AGraph.step op (getA st (otherOf op)) (getA st op.target)
+          let r := AGraph.step op (getA st op.other) (getA st op.target)
           ({ st with a := FimVerif.AMap.set op.target r.2 st.a }, resToJson (outWithGraphId op.target r.1))
       else (st, err "bad-request")
     | none => (st, err "bad-request")
